@@ -64,8 +64,11 @@ func (c *runCtx) buildCorpus() *c19Repo {
 	wr("dir/b c.txt", "with space\n")
 	wr("dir/sub/d.go", "package d\n")
 	wr("dir.c", "sibling\n")
+	wr("lib/x.c", "int x;\n") // sibling directories: one tree with several sub-trees
+	wr("lib2/y.c", "int y;\n")
+	wr("lib2/inc/y.h", "extern int y;\n")
 	wr(".goitignore", "build/\n*.log\n")
-	c.goitRun(w, "add", "a.txt", "dir", "dir.c", ".goitignore")
+	c.goitRun(w, "add", "a.txt", "dir", "dir.c", "lib", "lib2", ".goitignore")
 	c.goitRun(w, "commit", "-m", "first: commit\twith tab")
 	wr("a.txt", "hello again\n")
 	c.goitRun(w, "add", "a.txt")
